@@ -19,13 +19,32 @@ Proof.
 Qed.
 
 (* ---- the repaired `repeated` setters on live handles ---- *)
-Theorem b_live_spec b l : Coh b ->
+(* the four single-cell Row calls on a row object with a coherent map: the XML of Row.v, the map kept coherent *)
+Lemma wrow_op_spec o cs : wf cs -> lop_ok (LRowOp 0 o) ->
+  exists cs' rs, wrow_op o cs (cmap cs) = Some (cs', cmap cs', rs) /\
+    (match o with RSet _ _ | RIns _ _ | RDel _ | RApp _ => rstep cs o | _ => None end) = Some cs' /\ wf cs' /\
+    (rs = false -> (length cs <= length cs')%nat).
+Proof.
+  intros Hw Hok. assert (Hn : forall x, 0 <= norm_coord x (rwidth cs)) by (intros; apply norm_coord_nonneg, rwidth_nonneg).
+  destruct o as [x c|x c|x|c| | |]; cbn [lop_ok] in Hok; try contradiction; cbn [wrow_op rstep]; rewrite ?hmap_cmap; fold (rwidth cs).
+  - destruct (wrow_set_cell_spec (norm_coord x (rwidth cs)) c cs Hw (Hn x) Hok) as (cs' & rs & H1 & H2 & H3).
+    exists cs', rs. repeat split; auto. destruct (row_set_cell_refines _ c cs Hw (Hn x) Hok) as (v & Hv & _ & Hwv). rewrite H2 in Hv. now inversion Hv.
+  - destruct (wrow_insert_cell_spec (norm_coord x (rwidth cs)) c cs Hw (Hn x)) as (cs' & rs & H1 & H2 & H3).
+    exists cs', rs. repeat split; auto. destruct (row_insert_cell_refines _ c cs Hw (Hn x) Hok) as (v & Hv & _ & Hwv). rewrite H2 in Hv. now inversion Hv.
+  - destruct (wrow_delete_cell_spec (norm_coord x (rwidth cs)) cs Hw (Hn x)) as (cs' & rs & H1 & H2 & H3).
+    exists cs', rs. repeat split; auto. destruct (row_delete_cell_refines _ cs Hw (Hn x)) as (v & Hv & _ & Hwv). rewrite H2 in Hv. now inversion Hv.
+  - destruct c as [n cv]. cbn [fst] in *. exists (cs ++ [(n, cv)]), false. rewrite (app_map_cmap cs n cv). repeat split.
+    + apply Forall_app. split; [exact Hw|]. constructor; [exact Hok|constructor].
+    + rewrite app_length. lia.
+Qed.
+
+Theorem b_live_spec b l : Coh b -> lop_ok l ->
   exists b', b_live true b l = Some b' /\ a_live (ax b) l = Some (ax b') /\ Coh b'.
 Proof.
-  intros Hc. pose proof Hc as [Hwf Hm]. pose proof Hwf as [[Hwr Hwc] Hcw].
+  intros Hc Hlok. pose proof Hc as [Hwf Hm]. pose proof Hwf as [[Hwr Hwc] Hcw].
   assert (Hny : forall y, 0 <= ny y (ax b)) by (intros; apply norm_coord_nonneg, theight_nonneg).
   assert (Hnx : forall x, 0 <= nx x (ax b)) by (intros; apply norm_coord_nonneg, twidth_nonneg).
-  destruct l as [y rep|x y rep]; cbn [b_live a_live]; cbv zeta; rewrite ?(bny_coh b _ Hm), ?(bnx_coh b _ Hm), (bheight_coh b Hm).
+  destruct l as [y rep|x y rep|y o]; cbn [b_live a_live]; cbv zeta; rewrite ?(bny_coh b _ Hm), ?(bnx_coh b _ Hm), (bheight_coh b Hm).
   - destruct (Z.leb_spec (theight (ax b)) (ny y (ax b))) as [Hout|Hin]; [exists b; auto|].
     assert (Hyb : 0 <= ny y (ax b) < bheight b) by (rewrite (bheight_coh b Hm); split; [apply Hny|lia]).
     destruct (get_wrap_coh b _ Hc Hyb) as (i & w & b1 & rrep & st & cs & Hgw & Hfi & Hnth & Hrat & Hok & Hlk & Hax & Htm & Hcm & Hccq & Hc1).
@@ -84,6 +103,33 @@ Proof.
       split; [split; [|exact Hwc]|]; cbn [rows cols].
       * apply Forall_set_nth; [exact Hwr|]. cbn [fst]. exact (wf_nth _ _ _ _ Hwr Hnth).
       * unfold cwf. cbn [rows]. apply Forall_set_nth; [exact Hcw|]. cbn [snd]. exact Hwcs'.
+  - (* a Row call through the live wrapper *)
+    destruct (Z.leb_spec (theight (ax b)) (ny y (ax b))) as [Hout|Hin]; [exists b; auto|].
+    assert (Hyb : 0 <= ny y (ax b) < bheight b) by (rewrite (bheight_coh b Hm); split; [apply Hny|lia]).
+    destruct (get_wrap_coh b _ Hc Hyb) as (i & w & b1 & rrep & st & cs & Hgw & Hfi & Hnth & Hrat & Hok & Hlk & Hax & Htm & Hcm & Hccq & Hc1).
+    rewrite Hgw, Hfi, Hnth. rewrite <- Hax in Hok, Hnth.
+    destruct (wrap_row_ok (ax b1) i w rrep st cs Hok Hnth) as (Hr & Hrm & Hk & Hp). rewrite Hr, Hrm, Hp.
+    assert (Hwcs : wf cs) by (rewrite Hax in Hnth; exact (cwf_nth _ _ _ _ _ Hcw Hnth)).
+    assert (Hlo : lop_ok (LRowOp 0 o)) by exact Hlok.
+    destruct (wrow_op_spec o cs Hwcs Hlo) as (cs' & rs & Hwo & Hrs & Hwcs' & Hlen). rewrite Hwo.
+    assert (Ho : match o with RSet _ _ | RIns _ _ | RDel _ | RApp _ => True | _ => False end) by (destruct o; cbn [lop_ok] in Hlok; auto).
+    eexists; split; [reflexivity|]. cbn [ax].
+    assert (Hi : (i < length (rows (ax b1)))%nat) by (apply nth_error_Some; congruence).
+    pose proof Hc1 as [_ (Ht1 & Hcq1 & Htc1 & Hcc1)].
+    split; [|split].
+    + rewrite Hax. destruct o; try contradiction; rewrite Hrs; reflexivity.
+    + rewrite Hax. rewrite Hax in Hnth. split; [split; [|exact Hwc]|]; cbn [rows cols].
+      * apply Forall_set_nth; [exact Hwr|]. cbn [fst]. exact (wf_nth _ _ _ _ Hwr Hnth).
+      * unfold cwf. cbn [rows]. apply Forall_set_nth; [exact Hcw|]. cbn [snd]. exact Hwcs'.
+    + unfold CohM; cbn [ax tmapB cmapB tcache ccache cols rows].
+      split; [rewrite Ht1; apply cmap_reps; symmetry; apply (map_fst_set_nth i rrep (st, cs) (st, cs')); exact Hnth|].
+      split; [exact Hcq1|]. split; [|exact Hcc1].
+      apply (Forall_upsertn' (wrap_ok (ax b1))); [| |exact Htc1].
+      * exists rrep, st, cs'. cbn [fst snd rows w_pos w_rmap w_cells].
+        split; [apply nth_error_set_nth_same; exact Hi|]. split; [|split; [reflexivity|]].
+        -- destruct Hok as (? & ? & ? & _ & Hpp & _). exact Hpp.
+        -- destruct rs; [constructor|]. eapply keys_ok_mono; [|exact Hk]. auto.
+      * intros kv Hne Hkv. apply (wrap_ok_ext (ax b1)); [|exact Hkv]. cbn [rows]. apply nth_error_set_nth_other; assumption.
 Qed.
 
 (* ---- the boolean evaluated on implementation states is the proposition ---- *)
@@ -132,7 +178,7 @@ Proof.
   intros Hc Hok. destruct o as [m|q|l]; cbn [tB_step tB_step_gen bop_ok] in *.
   - destruct (b_mut_spec b m Hc Hok) as (b' & Hb & _ & Hc'). fold (b_mut true b m). rewrite Hb. exact Hc'.
   - apply b_read_spec. exact Hc.
-  - destruct (b_live_spec b l Hc) as (b' & Hb & _ & Hc'). rewrite Hb. exact Hc'.
+  - destruct (b_live_spec b l Hc Hok) as (b' & Hb & _ & Hc'). rewrite Hb. exact Hc'.
 Qed.
 Theorem coh_history os : forall b, Coh b -> Forall bop_ok os -> Coh (tB_run b os).
 Proof.
@@ -148,7 +194,7 @@ Proof.
   - destruct (b_mut_spec b m Hc Hok) as (b' & Hb & Hs & _). destruct (b_mut_spec (reparse b) m Hcr Hok) as (b2 & Hb2 & Hs2 & _).
     rewrite Hb, Hb2. cbn [fst]. cbn [reparse ax] in Hs2. congruence.
   - destruct (b_read_spec b q Hc) as (_ & Ha & _). destruct (b_read_spec (reparse b) q Hcr) as (_ & Ha2 & _). rewrite Ha, Ha2. reflexivity.
-  - destruct (b_live_spec b l Hc) as (b' & Hb & Hs & _). destruct (b_live_spec (reparse b) l Hcr) as (b2 & Hb2 & Hs2 & _).
+  - destruct (b_live_spec b l Hc Hok) as (b' & Hb & Hs & _). destruct (b_live_spec (reparse b) l Hcr Hok) as (b2 & Hb2 & Hs2 & _).
     rewrite Hb, Hb2. cbn [fst]. cbn [reparse ax] in Hs2. congruence.
 Qed.
 
